@@ -114,6 +114,10 @@ def instance_name_from_service_info(info: "ServiceInfo", strict: bool = True) ->
     return info.name[: -len(service_name) - 1]
 
 
+def _is_not_service_record(record_update: RecordUpdate) -> bool:
+    return record_update.new.type != _TYPE_SRV
+
+
 class ServiceInfo(RecordUpdateListener):
     """Service information.
 
@@ -477,7 +481,10 @@ class ServiceInfo(RecordUpdateListener):
         """
         new_records_futures = self._new_records_futures
         updated: bool = False
-        for record_update in records:
+        # An address record is only taken over once the SRV record has told which
+        # host the service is on, and the records of this datagram are not in the
+        # cache yet: look at its SRV records before the others
+        for record_update in sorted(records, key=_is_not_service_record):
             updated |= self._process_record_threadsafe(zc, record_update.new, now)
         if updated and new_records_futures:
             _resolve_all_futures_to_none(new_records_futures)
